@@ -17,6 +17,11 @@ directory, its files returned once each under the dotted path from the project r
 path relative to the app ("The paths must be relative to app", ComponentsSettings.app_dirs): "parts/inner",
 "components/", "./components" denote <app>/parts/inner, <app>/components and give one dotted-path part per
 segment; BASE_DIR spelled with ".." or through a symbolic link is still the project root.
+The same for APPS (root.reach): an installed app is the package Python imported under its name and <app>/<path> the
+directory that path leads to - an app located through a sys.path entry that is a symbolic link ("lnkapp": S/cur ->
+S/rel, only S/cur on sys.path) and an app directory that is itself a symbolic link to a shared directory elsewhere
+(S/shared/..., importable under no other name) give the app's files once each under <app>.<path>.<...>, importable,
+and autodiscover() is demanded there.
 
 spec -> code: MC_C20 - TLC enumerates every tree of <= MaxEntries entries (11 directories x 21 file names,
               5 explicit directory names incl. a directory called "e.py") x 9 ways of configuring the root
@@ -27,12 +32,14 @@ spec -> code: MC_C20 - TLC enumerates every tree of <= MaxEntries entries (11 di
               packages): dirs with "..", STATICFILES_DIRS tuple with "x/../x", the same directory twice as
               Path with "." and str with trailing slash, real path + symbolic link, link only, app_dirs
               "parts/inner", "components/", "./parts/inner", the same app_dirs entry twice, BASE_DIR with ".."
-              and through a link; checks the theorems (among them: spelling never changes the expected
+              and through a link, and 4 LINK variants of app directories (app on a linked sys.path entry with
+              app_dirs not given / "./ui"; <app>/components and <nested app>/parts/inner being links); checks the theorems (among them: spelling never changes the expected
               result) and exports each state; the harness materialises it,
               calls get_component_files, imports every file the specification calls Loadable and calls
               autodiscover() where the specification says it can be called.
-              Second family ("cfg"): nine candidate directories (comps, outer/comps, assets, lib/more, the
-              default components, four app directories) all exist with the same small tree; every
+              Second family ("cfg"): thirteen candidate directories (comps, outer/comps, assets, lib/more, the
+              default components, eight app directories - one of the app on the linked sys.path entry, one that
+              is a link to a shared directory) all exist with the same small tree; every
               combination of COMPONENTS.dirs (not given / [] / one / two incl. tuple form / a directory
               STATICFILES_DIRS lists too / the default directory) x STATICFILES_DIRS (empty / plain / tuple /
               two entries / the default directory) x app_dirs (not given / [] / one / two names) x COMPONENTS
@@ -50,7 +57,8 @@ code -> spec: seeded random sessions with several candidate directories at once 
               non-empty x app_dirs not given / [] / names; str, Path, (prefix, path) forms), deeper trees,
               entries created and removed between scans, a directory listed twice, `load` and `autodiscover`
               events; every listed path under a random spelling, symbolic links, repeated mentions, multi-
-              segment / decorated / repeated app_dirs entries, a spelled BASE_DIR; validated in one TLC batch
+              segment / decorated / repeated app_dirs entries, a spelled BASE_DIR, app directories of the app
+              on the linked sys.path entry and app directories that are links (30%); validated in one TLC batch
               by Trace_C20.
 
 Everything runs in-process: get_component_files reads settings lazily, so BASE_DIR / COMPONENTS /
@@ -884,8 +892,8 @@ def run(tier: str) -> int:
     finally:
         world.close()
     chk.cov["exhaustive"] = True
-    chk.cov["rule"] = ("every well-formed state of MC_C20 (tree x root variant incl. 11 spelling variants x suffix; and the "
-                       "configuration family: 11 candidate directories x COMPONENTS.dirs not given / [] / 4 lists x "
+    chk.cov["rule"] = ("every well-formed state of MC_C20 (tree x root variant incl. 11 spelling and 4 app-link variants x suffix; and the "
+                       "configuration family: 13 candidate directories x COMPONENTS.dirs not given / [] / 4 lists x "
                        "STATICFILES_DIRS empty / 4 lists x app_dirs not given / [] / 3 lists x 3 ways of writing COMPONENTS x "
                        "suffix, plus 3 + 2 + 3 lists with spelled / linked / repeated paths and multi-segment / decorated / "
                        "repeated app_dirs entries x everything else, plus BASE_DIR spelled 2 ways) materialised and compared "
@@ -897,6 +905,8 @@ def run(tier: str) -> int:
         "importability is demanded only where Autodiscover!Loadable holds (Python's package/module precedence)",
         "names with '..' or a trailing dot, suffixes without leading dot, nested/overlapping roots, roots outside "
         "BASE_DIR, symlinks inside component directories are never generated",
+        "apps behind links: the linked sys.path entry is the only way to the app package, the target of a linked app "
+        "directory is importable under no other name",
         "a directory named through a symbolic link: both dotted paths (real location, link) are admitted, each file once",
         "entries of django_components' own components/ app directory are projected away",
         "STATICFILES_DIRS 'not set' is Django's default (the empty list); app_dirs entries are relative str paths "
@@ -1052,6 +1062,13 @@ def selftest(tier: str) -> int:
         def resolve(self, strict=False):
             return self
 
+    class ResolvedJoinPath(type(Path())):
+        """Path whose joinpath() resolves: the app directories are searched under their resolved path while the
+        dotted path is still computed relative to the app path as Django knows it."""
+
+        def joinpath(self, *a):
+            return Path(super().joinpath(*a)).resolve()
+
     def raw_app_dir_module(file_path, root_fs_path, root_module_path):
         """The dotted path of an app file built from the app_dirs entry as written (app + "." + entry)."""
         from pathlib import PurePosixPath
@@ -1066,6 +1083,7 @@ def selftest(tier: str) -> int:
 
     probes = [
         ("component-dirs-not-normalised (no resolve)", lambda: patch(ld, "Path", NoResolvePath)),
+        ("app-dirs-resolved-before-search (app behind a link)", lambda: patch(ld, "Path", ResolvedJoinPath)),
         ("app-dot-path-from-raw-app_dirs-entry", lambda: patch(ld, "_filepath_to_python_module", raw_app_dir_module)),
         ("empty-COMPONENTS.dirs-treated-as-not-given", with_setting(empty_dirs_as_unset)),
         ("empty-app_dirs-treated-as-not-given", app_dirs_with(lambda v: v or ["components"])),
